@@ -161,6 +161,8 @@ def is_known(known, v):
 # ------------------------------------------------------------------------------------------
 def load_suite(name):
     mod = importlib.import_module(f"suites.{name}")
+    # `from time import sleep` / `from subprocess import Popen` in a jade module must stay behind the suites' fakes
+    common.normalize_boundary()
     return mod.SUITE
 
 
@@ -382,17 +384,28 @@ def main():
         lines.append(f"VIOLATION property={prop} replay={f}")
         new_viol += 1
         exit_code = 1
+    flaky = []
     if new_viol == 0:
         why = []
         if proof_problems:
             why.append({"proof": proof_problems})
         if not driver_ok:
             why.append({"driver_build_failed": log_drv[-1200:]})
+        # The harness is deterministic (seeded schedules, virtual time, fake boundary): a disagreement that does not show
+        # again when its case is run again says something about the machine (load, a watchdog), not about the code.  A
+        # handful of disagreements is therefore confirmed first; what cannot be reproduced is an infrastructure problem
+        # (exit 2, `FLAKY` on stderr, originals kept in the evidence), not a violation.
+        if 0 < len(all_dis) <= 10:
+            confirmed = []
+            for d in all_dis:
+                (confirmed if _disagrees(d[0], d[1]) else flaky).append(d)
+            all_dis = confirmed
         if all_dis:
             suite, c, r, m = all_dis[0]
             small = shrink(suite, c, lambda cand, s=suite: _disagrees(s, cand))
             why.append({"correspondence": {"suite": suite.name, "disagreements": len(all_dis), "first_case": small,
-                                           "impl": _impl1(suite, small), "model": _model1(suite, small)}})
+                                           "impl": _impl1(suite, small), "model": _model1(suite, small),
+                                           "first_seen": {"case": c, "impl": suite.view(r), "model": m} if small is c else None}})
         if stale and not why:
             # Translator could not read a site, but the hand-written model (with the baseline text of that
             # site) still agrees with the implementation on every compared case: the tie is carried by the
@@ -409,6 +422,11 @@ def main():
             lines.append(f"VIOLATION property={prop} replay={f} no-failing-input-found")
             exit_code = 1
     infra = []
+    if new_viol == 0 and flaky:
+        fs, fc, fr, fm = flaky[0]
+        f = write_replay(prop, "flaky", {"property": prop, "kind": "non-reproducible-disagreement", "suite": fs.name,
+                                         "count": len(flaky), "case": fc, "impl_then": fs.view(fr), "model_then": fm})
+        infra.append(f"FLAKY: {len(flaky)} disagreement(s) of suite {fs.name} did not reproduce when the case was run again ({f})")
     if stats["harness_exceptions"]:
         infra.append(f"{len(stats['harness_exceptions'])} harness exceptions, first: {stats['harness_exceptions'][0]['exc']}")
     if stats["driver_errors"] and driver_ok:
@@ -436,7 +454,8 @@ def main():
             "translator_sites": {k: v["status"] + ("+changed" if v.get("differs_from_baseline") else "") for k, v in report["sites"].items() if prop in v["props"]},
             "evaluations": stats["evaluations"], "compared_with_model": stats["compared"],
             "distinct_nontrivial": stats["distinct_nontrivial"],
-            "disagreements": len(all_dis), "oracle_violations": len(all_viol), "searched_extra": searched,
+            "disagreements": len(all_dis), "nonreproducible_disagreements": len(flaky),
+            "oracle_violations": len(all_viol), "searched_extra": searched,
             "rule": P.get("rule", "cases generated by the suites' seeded generators; distinct = distinct canonical input; "
                                   "non-trivial = hits at least one branch tag of the suite"),
             "branch_tags": dict(sorted(stats["tags"].items())),
